@@ -23,20 +23,24 @@ OPS = ["getitem", "rejected", "construct", "append", "add_state", "insert", "rem
 def FLOORS(tier):
     f = {"op:" + o: (40 if tier == "quick" else 400) for o in OPS}
     f.update({"operand:empty-other": 30, "operand:empty-self": 30, "inv-checks": 5000, "continue-on-derived": 300,
-              "operand:equal-but-distinct-copy": 200, "sort:with-key": 50, "values:with-inf": 60, "values:only-inf": 60,
+              "operand:equal-but-distinct-copy": 200, "sort:with-key": 50, "values:with-inf": 60, "values:near-ties": 60, "values:only-inf": 60,
               "filter:stateful-predicate": 30, "getitem:numpy.int64": 10, "getitem:__index__-object": 10, "setslice:extended": 20, "operand-kind:setslice:gen": 10, "operand-kind:setslice:iter": 10})
     return f
 
 
 VALUES = [-2, -1, 0, 1, 2.5, -1]
 INF = float("inf")
-POOLS = {"plain": VALUES, "with-inf": [INF, INF, INF, 1, -1, -INF], "only-inf": [INF], "big": [2.0 ** 70, -2.0 ** 70, 1e-300, 0, 3]}
+POOLS = {"near-ties": [0.1 + 0.2, 0.3, 10 ** 12, 10 ** 12 + 1, 1.0, 1.0 + 2.0 ** -40, 0.3], "plain": VALUES, "with-inf": [INF, INF, INF, 1, -1, -INF], "only-inf": [INF], "big": [2.0 ** 70, -2.0 ** 70, 1e-300, 0, 3]}
 
 
 def _rresult(rng, values=VALUES):
     spin = rng.random() < 0.5
     n = rng.randint(0, 3)
     st = {i: (rng.choice((1, -1)) if spin else rng.choice((0, 1))) for i in range(n)}
+    if rng.random() < 0.1:
+        import numpy as np
+        ty = rng.choice([np.int8, np.int64] if spin else [np.uint8, np.int64])      # states that come out of numpy arrays
+        st = {i: ty(v) for i, v in st.items()}
     return L.sim.AnnealResult(st, rng.choice(values), spin)
 
 
@@ -86,7 +90,7 @@ def case(ctx, rng, idx):
     hist = []
     kinds = set()
     nonempty_seen = False
-    pool = rng.choice(["plain", "plain", "plain", "with-inf", "only-inf", "big"])
+    pool = rng.choice(["plain", "plain", "plain", "with-inf", "only-inf", "big", "near-ties"])
     ctx.cat("values:" + pool)
     values = POOLS[pool]
     hist.append(["values", pool])
@@ -367,7 +371,7 @@ def case(ctx, rng, idx):
                 derived = (out, None)
                 ok = len(out) == len(shadow) and all(
                     o.spin is False and o.value == x.value and
-                    o.state == ({k: (1 - v) // 2 for k, v in x.state.items()} if x.spin else x.state)
+                    o.state == ({k: (1 - int(v)) // 2 for k, v in x.state.items()} if x.spin else x.state)
                     for o, x in zip(out, shadow))
                 back = out.to_spin().to_boolean() if ok else None
                 if not ok or [(o.state, o.value) for o in back] != [(o.state, o.value) for o in out]:
@@ -377,7 +381,7 @@ def case(ctx, rng, idx):
                 derived = (out, None)
                 ok = len(out) == len(shadow) and all(
                     o.spin is True and o.value == x.value and
-                    o.state == (x.state if x.spin else {k: 1 - 2 * v for k, v in x.state.items()})
+                    o.state == (x.state if x.spin else {k: 1 - 2 * int(v) for k, v in x.state.items()})
                     for o, x in zip(out, shadow))
                 back = out.to_boolean().to_spin() if ok else None
                 if not ok or [(o.state, o.value) for o in back] != [(o.state, o.value) for o in out]:
